@@ -137,6 +137,9 @@ def finish(mod, ctx, agg, coverage):
     coverage.setdefault("evaluations", agg.evals)
     coverage.setdefault("distinct_nontrivial", agg.nontrivial)
     coverage.setdefault("samples", agg.samples)
+    coverage.setdefault("explanation", "exhaustive=true refers to the finite space described in 'rule' and 'bounds' (every case of it was executed against the real code); the ladder cases "
+                        "(large shapes, repetitions, many live objects, long fixed histories; DESIGN.md 7.2) are fixed finite lists that were executed completely too, but they are sparse probes: "
+                        "sizes, counts and histories between or beyond them are not covered")
     coverage["known_findings_observed"] = {k: n for k, (_, n) in hit.items()}
     coverage["violation_classes"] = len(classes)
     coverage["worker_crashes"] = ctx.pool.crashes
